@@ -6,8 +6,9 @@
 (* height observations of C17.                                             *)
 (*                                                                         *)
 (* Granularity = the code segments between two verif yield points          *)
-(* (MANIFEST hooks): gbh.afterLookup, wait.afterCheck, flush.pendingAppended,*)
-(* flush.notified, setHeight.afterCAS, flush.headAdvanced.  Every step of  *)
+(* (MANIFEST hooks): gbh.afterLookup, wait.afterCheck, wait.subscribed,    *)
+(* flush.pendingAppended, flush.notified, setHeight.afterCAS,              *)
+(* flush.headAdvanced.  Every step of                                      *)
 (* this module is therefore replayable on the real Store by the gate       *)
 (* scheduler (harness/conch).  A reader released by a notification runs    *)
 (* its second lookup inside the notifier's step (it is not gated).         *)
@@ -46,11 +47,12 @@ Log(p, id, a) == hist' = Append(hist, [p |-> p, id |-> id, a |-> a,
                                       pc |-> pc', res |-> res', hs |-> hs', head |-> head', wpc |-> wpc'])
 
 \* readers woken by a notification for the heights in hsset: second lookup, done
+\* (a reader that is still at the gate before its post-subscription lookup only loses its subscription)
 Woken(hsset) == {r \in subs : want[r] \in hsset}
 WakeUpd(hsset, st) ==
   /\ subs' = subs \ Woken(hsset)
-  /\ pc' = [r \in Readers |-> IF r \in Woken(hsset) THEN "done" ELSE pc[r]]
-  /\ res' = [r \in Readers |-> IF r \in Woken(hsset) THEN Lookup(st, want[r]) ELSE res[r]]
+  /\ pc' = [r \in Readers |-> IF r \in Woken(hsset) /\ pc[r] = "parked" THEN "done" ELSE pc[r]]
+  /\ res' = [r \in Readers |-> IF r \in Woken(hsset) /\ pc[r] = "parked" THEN Lookup(st, want[r]) ELSE res[r]]
 
 -----------------------------------------------------------------------------
 (* Reader: GetByHeight(ctx, want[r]) *)
@@ -76,13 +78,20 @@ RLock(r) ==       \* heightSub.Wait: re-check under the lock, register, select
   /\ IF hs >= want[r]
      THEN /\ pc' = [pc EXCEPT ![r] = "done"] /\ res' = [res EXCEPT ![r] = Lookup(stored, want[r])]
           /\ UNCHANGED <<subs, lost>>
-     ELSE IF cancelled[r]
-     THEN /\ pc' = [pc EXCEPT ![r] = "done"] /\ res' = [res EXCEPT ![r] = "ctx"]
-          /\ UNCHANGED <<subs, lost>>
-     ELSE /\ pc' = [pc EXCEPT ![r] = "parked"] /\ subs' = subs \cup {r} /\ UNCHANGED res
-          /\ lost' = [lost EXCEPT ![r] = want[r] \in stored]   \* registered after the only notification: KF-C12
+     ELSE /\ pc' = [pc EXCEPT ![r] = "subscribed"] /\ subs' = subs \cup {r} /\ UNCHANGED res
+          /\ lost' = [lost EXCEPT ![r] = want[r] \in stored]   \* subscribed after the only notification (finding D11, repaired)
   /\ UNCHANGED <<stored, head, hs, q, wpc, cur, hsOld, script, sent, want, cancelled>>
   /\ Log("R", r, "lock")
+
+RPresent(r) ==    \* heightSub.WaitUnless: the lookup made once the subscription is in place, then the select
+  /\ pc[r] = "subscribed"
+  /\ IF want[r] \in stored
+     THEN pc' = [pc EXCEPT ![r] = "done"] /\ res' = [res EXCEPT ![r] = "ok"] /\ subs' = subs \ {r}
+     ELSE IF cancelled[r]
+     THEN pc' = [pc EXCEPT ![r] = "done"] /\ res' = [res EXCEPT ![r] = "ctx"] /\ subs' = subs \ {r}
+     ELSE pc' = [pc EXCEPT ![r] = "parked"] /\ UNCHANGED <<res, subs>>
+  /\ UNCHANGED <<stored, head, hs, q, wpc, cur, hsOld, script, sent, want, cancelled, lost>>
+  /\ Log("R", r, "present")
 
 Cancel(r) ==
   /\ Cancels /\ ~cancelled[r] /\ pc[r] # "done" /\ pc[r] # "init"
@@ -138,11 +147,11 @@ WFinish ==        \* recedeTail, commit, pending.Reset; then the next queued bat
   /\ Log("W", 0, "finish")
 
 Next ==
-  \/ \E r \in Readers : RStart(r) \/ RCheck(r) \/ RLock(r) \/ Cancel(r)
+  \/ \E r \in Readers : RStart(r) \/ RCheck(r) \/ RLock(r) \/ RPresent(r) \/ Cancel(r)
   \/ Enqueue \/ WNotify \/ WAdvance \/ WRange \/ WFinish
 
 Fair == /\ WF_vars(Enqueue) /\ WF_vars(WNotify) /\ WF_vars(WAdvance) /\ WF_vars(WRange) /\ WF_vars(WFinish)
-        /\ \A r \in Readers : WF_vars(RStart(r)) /\ WF_vars(RCheck(r)) /\ WF_vars(RLock(r))
+        /\ \A r \in Readers : WF_vars(RStart(r)) /\ WF_vars(RCheck(r)) /\ WF_vars(RLock(r)) /\ WF_vars(RPresent(r))
 Spec == Init /\ [][Next]_vars /\ Fair
 
 -----------------------------------------------------------------------------
